@@ -126,6 +126,34 @@ pub fn run_sim<R: Send + 'static>(
         handles.push(h);
     }
     sched::start();
+    // ---- watchdog: wait for the sim threads; un-wedge the baton when its holder blocks on a
+    // lock held by a parked thread; give up on a run in which every thread is blocked
+    let mut last = (sched::progress(), cpu_ms());
+    let mut stalled_since: Option<std::time::Instant> = None;
+    while !handles.iter().all(|h| h.is_finished()) {
+        std::thread::sleep(std::time::Duration::from_millis(5));
+        let now = (sched::progress(), cpu_ms());
+        let idle = now.0 == last.0 && now.1.saturating_sub(last.1) < 2;
+        if !idle {
+            last = now;
+            stalled_since = None;
+            continue;
+        }
+        let since = *stalled_since.get_or_insert_with(std::time::Instant::now);
+        let waited = since.elapsed().as_millis();
+        if waited >= 150 && n > 1 && waited < 20_000 {
+            if sched::force_handoff() {
+                stalled_since = None;
+                last = (sched::progress(), cpu_ms());
+            }
+        }
+        if waited >= 20_000 && !has_subprocess() {
+            // every sim thread is blocked and nothing consumes CPU: a genuine deadlock
+            crate::proc::abort_child_with(
+                "{\"violations\":[],\"inconclusive\":[\"all sim threads blocked for 20 s without consuming CPU (deadlock inside the code under test, or between it and the scheduler)\"],\"counters\":{\"deadlocked_runs\":1},\"sigs\":[],\"steps\":0,\"schedule\":[],\"log_hash\":0,\"sample\":null,\"harness_error\":null,\"trace\":null}",
+            );
+        }
+    }
     let mut results = vec![];
     let mut thread_panicked = vec![];
     for (i, h) in handles.into_iter().enumerate() {
@@ -194,4 +222,26 @@ pub fn op_end(label: &str) {
     shim::note(&format!("op-end {label}"));
     sched::set_in_op(false);
     sched::yield_point("op:end");
+}
+
+/// CPU time consumed by all OTHER threads of this process, in milliseconds (the watchdog's
+/// own polling must not look like progress)
+fn cpu_ms() -> u64 {
+    unsafe {
+        let mut p: libc::timespec = std::mem::zeroed();
+        let mut t: libc::timespec = std::mem::zeroed();
+        libc::clock_gettime(libc::CLOCK_PROCESS_CPUTIME_ID, &mut p);
+        libc::clock_gettime(libc::CLOCK_THREAD_CPUTIME_ID, &mut t);
+        let us = |x: &libc::timespec| x.tv_sec as u64 * 1_000_000 + x.tv_nsec as u64 / 1000;
+        us(&p).saturating_sub(us(&t)) / 1000
+    }
+}
+
+/// scenarios with a subprocess (formatter, CLI) legitimately sit idle while the child works
+static HAS_SUBPROCESS: std::sync::atomic::AtomicBool = std::sync::atomic::AtomicBool::new(false);
+pub fn set_has_subprocess(v: bool) {
+    HAS_SUBPROCESS.store(v, std::sync::atomic::Ordering::Relaxed);
+}
+fn has_subprocess() -> bool {
+    HAS_SUBPROCESS.load(std::sync::atomic::Ordering::Relaxed)
 }
